@@ -119,6 +119,11 @@ def random_collection(rng: random.Random, kind: str | None = None, big: bool = F
         ds = [random_droplet(rng, lay) for _ in range(n)]
         if n >= 2 and rng.random() < hetero_rate:
             other = random_layout(rng)
+            twin = {"PerturbedDroplet3D": "PerturbedDroplet3DAxisSym",
+                    "PerturbedDroplet3DAxisSym": "PerturbedDroplet3D"}.get(lay["cls"])
+            if twin and rng.random() < 0.6:
+                # another class with the very same record layout (same mode count)
+                other = {**lay, "cls": twin}
             if track:
                 # a track only accepts droplets of one space dimension
                 for _ in range(20):
